@@ -3,7 +3,7 @@ import json, os, subprocess, sys
 sys.path.insert(0, "/verif/tools"); sys.path.insert(0, "/verif")
 import seeded
 from concurrent.futures import ThreadPoolExecutor
-names = ["C09-sn", "C19-so", "C15-sm", "C19-sm"]
+names = ["C01-sm"]
 def one(n):
     prop = n[:3]
     out = subprocess.run(["/venv/bin/python", "/verif/tools/why.py", f"/verif/seeded/{n}", prop], capture_output=True, text=True).stdout
